@@ -45,7 +45,7 @@ def run(ctx):
             m[pos] = v
             g(m, MASKS[(pos + v) % 3])
     g([0] * 9, MASKS[2])
-    nrand = 1000 if ctx.quick else 20000
+    nrand = 1000 if ctx.quick else 80000
     words = []
     for _ in range(nrand):
         m = [rng.getrandbits(8) for _ in range(9)]
@@ -53,7 +53,7 @@ def run(ctx):
         words.append((g(m, mask), mask))
     flush()
     words = [(bytes(w), mask) for w, mask in words]
-    for w, mask in words[: (600 if ctx.quick else 10000)]:
+    for w, mask in words[: (600 if ctx.quick else 40000)]:
         chk.append({"word": list(w), "mask": list(mask), "accepted": bool(RS.check(bytes(w), bytes(mask)))})
         # the receiver's habit: the word that was just accepted is offered again under the other masks (voice LC header /
         # terminator / none) and then once more under its own
